@@ -1216,9 +1216,9 @@ fn main() {
     phase_constructors(&mut c, &mut rng, &pool, args.shard == 0);
     phase_memos(&mut c, &mut rng, args.get_u64("memos", args.pick(1500, 60_000)));
 
-    let n_rt = args.get_u64("roundtrips", args.pick(4000, 200_000));
-    let n_mut = args.get_u64("mutations", args.pick(8000, 400_000));
-    let n_fuzz = args.get_u64("fuzz", args.pick(15_000, 1_000_000));
+    let n_rt = args.get_u64("roundtrips", args.pick(4000, 60_000));
+    let n_mut = args.get_u64("mutations", args.pick(8000, 150_000));
+    let n_fuzz = args.get_u64("fuzz", args.pick(15_000, 600_000));
     let mut runner = vh_common::proptest_runner(args.shard_seed(), 1202);
     let nets = [NetworkType::Main, NetworkType::Test, NetworkType::Regtest];
     let strat_idx: Vec<_> = nets.iter().map(|n| zip321::testing::arb_zip321_request(*n)).collect();
